@@ -76,6 +76,13 @@ class GenericResolver(Generic[K, M]):
             return tp
         return tp[tuple(chain.from_iterable(type_var_to_actual[type_var] for type_var in params))]
 
+    def _get_definers(self, tp) -> Mapping[K, type]:
+        definers: dict[K, type] = {}
+        for parent in tp.__mro__[1:]:
+            for key in self._raw_members_getter(parent).overriden:
+                definers.setdefault(key, parent)
+        return definers
+
     def _get_members_by_parents(self, tp) -> MembersStorage[K, M]:
         members_storage = self._raw_members_getter(tp)
         if not any(
@@ -89,9 +96,15 @@ class GenericResolver(Generic[K, M]):
         # a plain subclass of a generic class inherits ``__orig_bases__`` of its parent,
         # the type variables of such a class are bound by its own bases
         orig_bases = tp.__orig_bases__ if "__orig_bases__" in vars(tp) else tp.__bases__
+        # a member is taken from the base through which the class that introduces its annotation is reached,
+        # so with ``D(B[int], C[int])`` a member overridden by ``C`` is not replaced with the one ``B`` inherits
+        definers = self._get_definers(tp)
         bases_members: dict[K, TypeHint] = {}
         for base in reversed(orig_bases):
-            bases_members.update(self.get_resolved_members(base).members)
+            base_mro = getattr(strip_alias(base), "__mro__", ())
+            for key, value in self.get_resolved_members(base).members.items():
+                if key not in definers or definers[key] in base_mro:
+                    bases_members[key] = value
 
         return replace(
             members_storage,
